@@ -697,7 +697,12 @@ def run_unit(unit):
 
     t0 = time.process_time()
     lib()
-    logging.getLogger("arviz").setLevel(logging.ERROR)  # "Shape validation failed" for < 4 draws
+    import arviz
+
+    # "Shape validation failed" for < 4 draws; arviz uses a private Logger instance
+    logging.getLogger("arviz").setLevel(logging.ERROR)
+    if hasattr(arviz, "_log"):
+        arviz._log.setLevel(logging.ERROR)
     with quiet(), warnings.catch_warnings():
         warnings.simplefilter("ignore")
         if unit["kind"] == "pipeline":
